@@ -287,7 +287,54 @@ def fam_repeat(rng, tier):
     return out
 
 
-FAMILIES = dict(lifecycle=fam_lifecycle, qstatus=fam_queue_status, drift=fam_skip_drift,
+def fam_core(rng, tier):
+    """Scenarios that are always part of the quick tier (never sampled away): one representative of each
+    corner that needs a specific multi-step history."""
+    out = []
+    # C15: manual work below a later robot merge, then reset
+    for casc, mode in (('B3', 'queue'), ('B3', 'noqueue')):
+        for seq in (['manual1', 'push', 'eval'], ['manual_first', 'push', 'eval', 'manual1'], ['push', 'eval', 'manual2']):
+            out.append(dict(id='core/reset/%s/%s/%s' % (casc, mode, '+'.join(seq)), world=world(casc, mode),
+                            steps=[{"a": "reset_script", "seq": seq, "cmd": "reset",
+                                    "dst": CASCADES[casc]['branches'][0]}], core=True))
+    # C20: two PRs on one hotfix queue (and one on the main queue), then rebuild / create-branch rebuild
+    for kind, extra in (('RebuildQueues', {}), ('CreateBranch', {'branch': 'development/11.0'})):
+        out.append(dict(id='core/admin/%s/hotfix2' % kind, world=world('H3h', 'queue'),
+                        steps=[{"a": "admin_script", "kind": kind, "branch": extra.get('branch', ''), "from": None,
+                                "queued": 3, "hotfix_queue": True, "hotfix_n": 2}], core=True))
+        out.append(dict(id='core/admin/%s/mixed3' % kind, world=world('H3h', 'queue'),
+                        steps=[{"a": "admin_script", "kind": kind, "branch": extra.get('branch', ''), "from": None,
+                                "queued": 3, "hotfix_queue": True}], core=True))
+    # C08/C20: a delete-branch job whose branch deletion is refused, new commits, then a retry
+    out.append(dict(id='core/admin/delete-retry', world=world('B3', 'noqueue'),
+                    steps=[{"a": "api", "kind": "DeleteBranch", "branch": "development/4.3",
+                            "reject": ["development/4.3"]},
+                           open_pr(1, 'development/4.3'), {"a": "gate", "p": 1},
+                           {"a": "api", "kind": "DeleteBranch", "branch": "development/4.3"},
+                           {"a": "api", "kind": "CreateBranch", "branch": "development/4.3"}], core=True))
+    # C19: decline a PR that has integration branches but no integration pull requests
+    for mode in ('queue', 'noqueue'):
+        out.append(dict(id='core/decline-no-children/%s' % mode,
+                        world=world('B3', mode, {'always_create_integration_pull_requests': False}),
+                        steps=[open_pr(1, 'development/4.3'), {"a": "eval_pr", "p": 1}, {"a": "eval_pr", "p": 1},
+                               {"a": "decline", "p": 1}, {"a": "eval_pr", "p": 1}, {"a": "eval_pr", "p": 1}],
+                        core=True))
+    # C01: no_octopus direct merge of a PR that is behind its destination
+    for casc in ('B3', 'D3s'):
+        d0 = CASCADES[casc]['branches'][0]
+        out.append(dict(id='core/behind/%s' % casc, world=world(casc, 'noqueue'),
+                        steps=[open_pr(1, d0), open_pr(2, d0),
+                               {"a": "comment", "p": 1, "u": "contrib", "text": "@robot no_octopus"},
+                               {"a": "comment", "p": 2, "u": "contrib", "text": "@robot no_octopus"},
+                               {"a": "gate", "p": 1}, {"a": "gate", "p": 2}, {"a": "eval_pr", "p": 2}], core=True))
+    # C12: two dependencies of mixed status
+    out.append(dict(id='hold/B3/queue/after_two/core', world=world('B3', 'queue'),
+                    steps=[{"a": "hold_script", "hold": "after_two", "pos": "at_open", "dst": "development/4.3",
+                            "dst2": "development/5.1"}], core=True))
+    return out
+
+
+FAMILIES = dict(core=fam_core, lifecycle=fam_lifecycle, qstatus=fam_queue_status, drift=fam_skip_drift,
                 holds=fam_holds, reset=fam_reset, admin=fam_admin, events=fam_events, repeat=fam_repeat)
 
 
